@@ -1,12 +1,12 @@
 (* Implementation models of zrnt's block processing, where zrnt's algorithm is NOT the pyspec text.  MODELS ONLY
    (proofs: Beacon/Refine/Block*Refine.v).
 
-     altair/sync_aggregate.go     ProcessSyncAggregate        (batched proposer reward, cached committee indices)
+     altair/sync_aggregate.go     ProcessSyncAggregate        (cached committee indices; `_orig` = pinned snapshot: batched proposer reward)
      phase0/voluntary_exit.go     InitiateValidatorExit       (one pass: running maximum + its churn)
      phase0/slashings.go          SlashValidator
      phase0/attester_slashing.go  ProcessAttesterSlashing     (ZigZagJoin, validators view taken before the loop)
      altair/attestation.go        ProcessAttestation          (flag word OR-ed at once, numerator accumulation)
-     phase0/deposit.go            ProcessDeposits/ProcessDeposit (pubkey cache lookup, wrapping deposit count)
+     phase0/deposit.go            ProcessDeposits/ProcessDeposit (pubkey cache lookup; `_orig` = pinned snapshot: wrapping deposit count)
      capella/transition.go        GetExpectedWithdrawals / ProcessWithdrawals
      common/header.go             ProcessHeader
 
@@ -68,8 +68,9 @@ Section Impl.
         | pk :: pks' => r <~ sync_select bits' pks' ;; Ok (if b then pk :: r else r)
         end
     end.
-  (* second loop: reward or penalise each committee position; the proposer is NOT touched here *)
-  Fixpoint sync_loop (bits : list bool) (idxs : list N) (pr : N) (bals : list N) : outcome (list N) :=
+  (* PINNED SNAPSHOT (before fix 74b46c6): second loop, reward or penalise each committee position; the proposer is
+     NOT touched here and is credited once after the loop *)
+  Fixpoint sync_loop_orig (bits : list bool) (idxs : list N) (pr : N) (bals : list N) : outcome (list N) :=
     match bits with
     | [] => Ok bals
     | b :: bits' =>
@@ -77,7 +78,7 @@ Section Impl.
         | [] => Panic IndexOOR
         | i :: idxs' =>
             bals' <~ (if b then go_increase_balance bals i pr else go_decrease_balance bals i pr) ;;
-            sync_loop bits' idxs' pr bals'
+            sync_loop_orig bits' idxs' pr bals'
         end
     end.
   (* participant and proposer reward, uint64 arithmetic *)
@@ -92,7 +93,7 @@ Section Impl.
   Definition eth2_fast_aggregate_verify (pks : list bytes) (msg sig : bytes) : bool :=
     match pks with [] => bytes_eqb sig G2_POINT_AT_INFINITY | _ => bls_fast_aggregate_verify E pks msg sig end.
 
-  Definition process_sync_aggregate_impl (epc : BlockEpc) (st : BeaconState) (sa : value) : outcome BeaconState :=
+  Definition process_sync_aggregate_orig (epc : BlockEpc) (st : BeaconState) (sa : value) : outcome BeaconState :=
     let bits := vbits (vfield sa 0) in
     let sig := vbytes (vfield sa 1) in
     _ <~ check (N.of_nat (length bits) =? SYNC_COMMITTEE_SIZE c) ;;            (* bitfields.BitvectorCheck *)
@@ -105,9 +106,41 @@ Section Impl.
     _ <~ check (eth2_fast_aggregate_verify participants (compute_signing_root E root domain) sig) ;;
     rw <~ sync_rewards_impl epc ;;
     let '(pr, propr) := rw in
-    bals <~ sync_loop bits (be_sync_indices epc) pr (balances st) ;;
+    bals <~ sync_loop_orig bits (be_sync_indices epc) pr (balances st) ;;
     proposer <~ of_opt (be_proposer epc) ;;
     bals <~ go_increase_balance bals proposer (mul64 propr (N.of_nat (length participants))) ;;   (* batched *)
+    Ok (st <| balances := bals |>).
+
+
+  (* the code as repaired by fixes/C01-sync-aggregate-proposer-reward-order.diff (/repo 74b46c6): the proposer is looked
+     up before the loop and credited per participant, in committee order *)
+  Fixpoint sync_loop (bits : list bool) (idxs : list N) (p pr propr : N) (bals : list N) : outcome (list N) :=
+    match bits with
+    | [] => Ok bals
+    | b :: bits' =>
+        match idxs with
+        | [] => Panic IndexOOR
+        | i :: idxs' =>
+            bals' <~ (if b then b1 <~ go_increase_balance bals i pr ;; go_increase_balance b1 p propr
+                      else go_decrease_balance bals i pr) ;;
+            sync_loop bits' idxs' p pr propr bals'
+        end
+    end.
+  Definition process_sync_aggregate_impl (epc : BlockEpc) (st : BeaconState) (sa : value) : outcome BeaconState :=
+    let bits := vbits (vfield sa 0) in
+    let sig := vbytes (vfield sa 1) in
+    _ <~ check (N.of_nat (length bits) =? SYNC_COMMITTEE_SIZE c) ;;
+    participants <~ sync_select bits (be_sync_pubkeys epc) ;;
+    let prev_slot := if slot st =? GENESIS_SLOT then GENESIS_SLOT else slot st - 1 in
+    ep <~ div64 prev_slot (SLOTS_PER_EPOCH c) ;;
+    let domain := get_domain E st DOMAIN_SYNC_COMMITTEE ep in
+    ri <~ (if SLOTS_PER_HISTORICAL_ROOT c =? 0 then Panic DivZero else Ok (prev_slot mod SLOTS_PER_HISTORICAL_ROOT c)) ;;
+    root <~ of_opt (nthN (block_roots st) ri) ;;
+    _ <~ check (eth2_fast_aggregate_verify participants (compute_signing_root E root domain) sig) ;;
+    rw <~ sync_rewards_impl epc ;;
+    let '(pr, propr) := rw in
+    proposer <~ of_opt (be_proposer epc) ;;
+    bals <~ sync_loop bits (be_sync_indices epc) proposer pr propr (balances st) ;;
     Ok (st <| balances := bals |>).
 
   (* ================= phase0/voluntary_exit.go InitiateValidatorExit ================= *)
@@ -295,17 +328,18 @@ Section Impl.
         bals <~ go_increase_balance (balances st) i amount ;;
         Ok (st <| balances := bals |>)
     end.
-  (* ProcessDeposits: the expected count is computed with a WRAPPING subtraction *)
+  (* ProcessDeposits: the expected count; the subtraction wraps when deposit_count < eth1_deposit_index *)
   Definition expected_deposit_count_impl (st : BeaconState) : N :=
     let d := sub64 (e_deposit_count (eth1_data st)) (eth1_deposit_index st) in
     if MAX_DEPOSITS c <? d then MAX_DEPOSITS c else d.
-  Definition process_deposits_impl (epc_of : BeaconState -> BlockEpc) (st : BeaconState) (deps : list value) : outcome BeaconState :=
+  Definition process_deposits_orig (epc_of : BeaconState -> BlockEpc) (st : BeaconState) (deps : list value) : outcome BeaconState :=
     _ <~ check (N.of_nat (length deps) =? expected_deposit_count_impl st) ;;
     fold_left (fun acc dep => st <~ acc ;; process_deposit_impl (epc_of st) st dep) deps (Ok st).
-  (* with the proposed repair fixes/C03-deposit-count-underflow.diff: refuse deposit_count < eth1_deposit_index *)
-  Definition process_deposits_fixed (epc_of : BeaconState -> BlockEpc) (st : BeaconState) (deps : list value) : outcome BeaconState :=
+  (* `_orig` above = pinned snapshot (no guard).  The code as repaired by fixes/C03-deposit-count-underflow.diff
+     (/repo 9bd2c6a) refuses deposit_count < eth1_deposit_index first *)
+  Definition process_deposits_impl (epc_of : BeaconState -> BlockEpc) (st : BeaconState) (deps : list value) : outcome BeaconState :=
     _ <~ check (eth1_deposit_index st <=? e_deposit_count (eth1_data st)) ;;
-    process_deposits_impl epc_of st deps.
+    process_deposits_orig epc_of st deps.
 
   (* ================= capella/transition.go GetExpectedWithdrawals / ProcessWithdrawals ================= *)
   Fixpoint withdrawals_sweep_impl (fuel : nat) (st : BeaconState) (epoch count widx vidx i : N) (acc : list (N * N * bytes * N))
